@@ -95,6 +95,9 @@ class Gfx(util.BaseSection):
             datastrs.append(bytearray.fromhex(larray_str))
 
         data = b''.join(datastrs)
+        # PICO-8 leaves out trailing empty rows. The memory region is always
+        # whole.
+        data += b'\x00' * (128 * 64 - len(data))
         return cls(data=data, version=version)
 
     def to_lines(self):
